@@ -219,15 +219,21 @@ def op_list(ft):
         has_d = ft["dialect"] == "all" or (ft["dialect"] == "outer-only" and c in ("Holder", "Holder2"))
         for f, to_m, from_m in fmts:
             for dial in ([False, True] if has_d else [False]):
-                ops.append((c, to_m, from_m, "to", dial))
-                ops.append((c, to_m, from_m, "from", dial))
+                ops.append((c, to_m, from_m, "to", dial, ""))
+                ops.append((c, to_m, from_m, "from", dial, ""))
+                if to_m == "to_jsonb":
+                    # per-call encoder options (also on the very first, compiling, call of a lazy class)
+                    ops.append((c, to_m, from_m, "to", dial, "orjson_options"))
     return ops
 
 
 def run_op(mod, vals, op):
-    c, to_m, from_m, direction, dial = op
+    c, to_m, from_m, direction, dial, extra = op
     kw = {"dialect": mod.D1} if dial else {}
     v = vals[c]
+    if extra == "orjson_options":
+        import orjson
+        return getattr(v, to_m)(orjson_options=orjson.OPT_INDENT_2 | orjson.OPT_SORT_KEYS, **kw)
     doc = getattr(v, to_m)(**kw)
     if direction == "to":
         return doc if isinstance(doc, (bytes, str)) else norm(doc)
@@ -344,8 +350,8 @@ def run_case(seed, tier, rec, st):
 
 
 def op_name(op):
-    c, to_m, from_m, direction, dial = op
-    return f"{c}.{to_m if direction == 'to' else from_m}({'dialect=D1' if dial else ''})"
+    c, to_m, from_m, direction, dial, extra = op
+    return f"{c}.{to_m if direction == 'to' else from_m}({'dialect=D1' if dial else ''}{' orjson_options=INDENT|SORT' if extra else ''})"
 
 
 def judge(rec, ft, mode, op, got, exp, done, facts, fam):
@@ -358,7 +364,7 @@ def judge(rec, ft, mode, op, got, exp, done, facts, fam):
         rec.count("op_fails_in_both_modes")
         return
     kind = got[0] if got[0] != "ok" else "value"
-    c, to_m, from_m, direction, dial = op
+    c, to_m, from_m, direction, dial, extra = op
     rec.violation(f"{mode}:{'threads' if facts.get('threads') else 'history'}:{kind}:{to_m if direction == 'to' else from_m}:{'dialect' if dial else 'nodialect'}",
                   {"features": ft, "mode": mode, "op": op_name(op), "ops_so_far": done[-10:], "observed": str(got)[:400], "expected_eager": str(exp)[:400],
                    "source": "".join(fam.sources[1:])},
